@@ -137,6 +137,17 @@ impl C08 {
                 d.name = "D".repeat(*rng.pick(&[255usize, 256, 300, 1000]));
             }
             out.bucket("layout/names_at_length_limit");
+            // boundary contents at the START of sections as well: half of these files begin with the
+            // longest records a section can hold
+            if rng.chance(1, 2) {
+                let t = facts.terms.remove(i);
+                facts.terms.insert(0, t);
+                if facts.terms[0].id != 1 && facts.terms[0].id != 118 {
+                    let tail = *rng.pick(&["", "é", "€"]);
+                    facts.terms[0].name = format!("{}{tail}", "f".repeat(255 - tail.len()));
+                }
+                out.bucket("layout/longest_record_first");
+            }
         }
         // boundary contents at the END of sections: the last term / gene / disease record is as short as
         // a record can be (empty name, no terms) in a third of the files
